@@ -396,7 +396,7 @@ void mmd_export_image_html(DString * out, const char * source, token * text, lin
 				print_const(" ");
 				print(a->key);
 				print_const("=\"");
-				print(a->value);
+				mmd_print_string_html(out, a->value, false, false);
 				print_const("\"");
 				free(width);
 				width = NULL;
@@ -417,7 +417,7 @@ void mmd_export_image_html(DString * out, const char * source, token * text, lin
 				print_const(" ");
 				print(a->key);
 				print_const("=\"");
-				print(a->value);
+				mmd_print_string_html(out, a->value, false, false);
 				print_const("\"");
 				free(height);
 				height = NULL;
@@ -429,7 +429,7 @@ void mmd_export_image_html(DString * out, const char * source, token * text, lin
 			print_const(" ");
 			print(a->key);
 			print_const("=\"");
-			print(a->value);
+			mmd_print_string_html(out, a->value, false, false);
 			print_const("\"");
 		}
 
@@ -440,11 +440,15 @@ void mmd_export_image_html(DString * out, const char * source, token * text, lin
 		print_const(" style=\"");
 
 		if (height) {
-			printf("height:%s;", height);
+			print_const("height:");
+			mmd_print_string_html(out, height, false, false);
+			print_const(";");
 		}
 
 		if (width) {
-			printf("width:%s;", width);
+			print_const("width:");
+			mmd_print_string_html(out, width, false, false);
+			print_const(";");
 		}
 
 		print_const("\"");
